@@ -208,7 +208,16 @@ def gen_spec(rng, idx, small=False):
         n = 0 if r < 0.07 else 1 if r < 0.15 else rng.choice([2, 3, 4, 5, 6, 7, 9, 12, 24])
         mults = [round(rng.uniform(0, 3), rng.choice([0, 1, 3])) for _ in range(n)]
         wrap = not (rng.random() < 0.12)
-        pats.append({"name": names[k], "mults": mults, "wrap": wrap})
+        # how the pattern enters the model: a list, or a Pattern OBJECT that already carries time options of its own
+        # (a (start, step) tuple, or the options of another model) -- documented: "Patterns always use the global water
+        # network model options.time values"
+        r2 = rng.random()
+        bound = None
+        if r2 < 0.15:
+            bound = ["tuple", rng.choice([0, 1800, 3600]), rng.choice([s_ for s_ in STEPS if s_ != step])]
+        elif r2 < 0.3:
+            bound = ["model", rng.choice([s_ for s_ in STEPS if s_ != step]), rng.choice([0, 7200]), not interp]
+        pats.append({"name": names[k], "mults": mults, "wrap": wrap, "bound": bound})
     pnames = [p["name"] for p in pats]
     cats = [None, None, "A", "B", "", "res"]
     nj = rng.randint(1, 3) if small else rng.randint(2, 6)
@@ -326,7 +335,17 @@ def build(spec):
     if spec["default_pattern"] != "keep":
         wn.options.hydraulic.pattern = spec["default_pattern"]
     for p in spec["patterns"]:
-        if p["wrap"]:
+        b = p.get("bound")
+        if b and b[0] == "tuple":
+            wn.add_pattern(p["name"], Pattern(p["name"], multipliers=list(p["mults"]), time_options=(b[1], b[2]), wrap=p["wrap"]))
+        elif b and b[0] == "model":
+            wn1 = wntr.network.WaterNetworkModel()
+            wn1.options.time.pattern_timestep = b[1]
+            wn1.options.time.pattern_start = b[2]
+            wn1.options.time.pattern_interpolation = b[3]
+            wn1.add_pattern(p["name"], Pattern(p["name"], multipliers=list(p["mults"]), wrap=p["wrap"]))
+            wn.add_pattern(p["name"], wn1.get_pattern(p["name"]))
+        elif p["wrap"]:
             wn.add_pattern(p["name"], list(p["mults"]))
         else:
             wn.add_pattern(p["name"], Pattern(p["name"], multipliers=list(p["mults"]), time_options=wn.options.time, wrap=False))
@@ -514,6 +533,8 @@ class C20(Check):
         step, pstart, interp, dm = t["pattern_timestep"], t["pattern_start"], t["interp"], spec["dm"]
         toks = ts_tokens(spec)
         lens = ",".join(str(len(p["mults"])) for p in spec["patterns"]) or "-"
+        for p in spec["patterns"]:
+            ctx.count("pattern_added_as_%s" % (p["bound"][0] + "_bound_object" if p.get("bound") else "list" if p["wrap"] else "own_options_object"))
         haslong = any(len(p["mults"]) >= 2 for p in spec["patterns"])
         nontriv = haslong or pstart != 0
         sid = spec.get("id", label)
@@ -734,7 +755,9 @@ class C20(Check):
             fail("todini_index-exception" + ("" if pn else "-no-pumps"), "todini_index raised %s: %s" % (type(e).__name__, e), {"call": "todini_index"})
         # MRI
         try:
-            elev = pd.Series({n: wn.get_node(n).elevation for n in jn})
+            eorder = list(jn)
+            rng.shuffle(eorder)  # the Series need not be in the order of the pressure columns: matched by junction NAME
+            elev = pd.Series({n: wn.get_node(n).elevation for n in eorder})
             if rng.random() < 0.2 and len(jn):
                 pstar_m = -float(elev.iloc[0])  # Pstar + elevation = 0 at one junction
             else:
